@@ -102,6 +102,17 @@ func (u *inputSpec) cases(fn func(c *h.Case) bool) {
 						return
 					}
 				}
+				// ... and with the fields that carry their default left nil
+				// (Opt{Complete: trie.Bool(true)} is how most callers write it)
+				for _, o := range u.opts {
+					if o.D == 0 && o.I == 1 && o.L == 1 && o.C == 1 {
+						continue // nothing at its default: same as the explicit form
+					}
+					c := &h.Case{Keys: u.sc.Keys, ValIDs: v.ids, Enc: enc, Opt: o, Minimal: true}
+					if !fn(c) {
+						return
+					}
+				}
 			}
 		}
 	}
@@ -303,7 +314,7 @@ func evalTrieCase(w *h.Worker, c *h.Case, u *inputSpec, oracle trieOracle, recor
 	// prefixes and tails of its own) is built between this build and its
 	// questions; whatever the build path shares between tries is overwritten by it
 	{
-		bc := &h.Case{Keys: bystanderKeys, Enc: c.Enc, Opt: c.Opt, NoOptArg: c.NoOptArg, SharedCells: c.SharedCells}
+		bc := &h.Case{Keys: bystanderKeys, Enc: c.Enc, Opt: c.Opt, NoOptArg: c.NoOptArg, SharedCells: c.SharedCells, Minimal: c.Minimal}
 		if c.ValIDs != nil {
 			bc.ValIDs = []int{3, 2, 2, 1}
 		}
@@ -318,7 +329,7 @@ func evalTrieCase(w *h.Worker, c *h.Case, u *inputSpec, oracle trieOracle, recor
 		w.Sample(map[string]interface{}{"scaffold": u.sc.Name, "case": c.Brief(), "queries": len(u.qs), "instances": u.insts})
 	}
 	insts := u.insts
-	if c.SharedCells {
+	if c.SharedCells || c.Minimal {
 		insts = []string{h.InstFresh}
 	}
 	for _, inst := range insts {
@@ -352,6 +363,19 @@ func evalTrieCase(w *h.Worker, c *h.Case, u *inputSpec, oracle trieOracle, recor
 				}
 				uu := *u
 				uu.qs = u.qsRev
+				// between the sweeps: the reads that no lookup oracle performs (a full
+				// scan with keys and values where scanning is supported, Stat,
+				// Marshal); reads must leave the instance as it was
+				h.Safely(func() {
+					st.Stat()
+					st.Marshal()
+					if b.Opt.IsComplete() {
+						nxt := st.NewIter("", true, true)
+						for k, _ := nxt(); k != nil; k, _ = nxt() {
+						}
+						st.ScanFrom("", true, false, func(k, v []byte) bool { return true })
+					}
+				})
 				w.Rev = true
 				v = oracle(w, b, inst, st, &uu)
 				if v != nil {
